@@ -210,6 +210,24 @@ package chain
 //@   ensures[signer-is-current-sharder] result ==> lfbt.SharderID in asptr(curMB(c), MagicBlock).Sharders.NodesMap
 //@   ensures[signature-verified] result ==> $sigChecked
 
+// The ticket a node reports (`latest` of the ticket worker) never moves to a lower round, whatever
+// arrives on the channels (received tickets, blocks to broadcast, timers, subscriptions).
+//@ func (*Chain).newLFBTicket
+//@   trusted
+//@   ensures ticket != nil && fresh(ticket) && ticket.Round == b.Round
+//@   modifies nothing
+//@ func (*Chain).sendLFBTicketEventToSubscribers
+//@   trusted
+//@   modifies nothing
+//@ func (*Chain).asyncSendLFBTicket
+//@   trusted
+//@   modifies nothing
+//@ func (*Chain).StartLFBTicketWorker
+//@   prop C41
+//@   requires c != nil && on != nil
+//@   loop 1 nondecreasing latest.Round
+//@   dead-paths 1 -- `if latest.Round < ticket.Round` after `b.Round <= latest.Round` was excluded and ticket.Round == b.Round: the skip branch cannot be taken
+
 //@ func (*Chain).GetMagicBlockNoOffset
 //@   prop C40
 //@   requires c != nil && rheld(c.mbMutex) == 0
